@@ -118,34 +118,57 @@ macro_rules! forms {
 }
 
 macro_rules! all_ops {
-    ($t:ty, $op:expr, $c:expr) => {{
+    ($t:ty, $op:expr, $ws:expr, $c:expr) => {{
         let c = $c;
+        let signed = $ws != 0;
+        // witness set 0: positive values; witness set 1 (signed and float types only): mixed signs, negative scalars.
+        // The witnesses are chosen at run time so that each operator form is compiled once per type.
+        let pick = |a: [i32; 8], b: [i32; 8]| -> ([$t; 6], $t, $t) {
+            let w = if signed { b } else { a };
+            ([c(w[0]), c(w[1]), c(w[2]), c(w[3]), c(w[4]), c(w[5])], c(w[6]), c(w[7]))
+        };
         match $op {
-            0 => forms!($t, +, +=, [c(1), c(2), c(3), c(4), c(5), c(6)], c(10), c(20)),
-            1 => forms!($t, -, -=, [c(7), c(9), c(12), c(8), c(11), c(10)], c(3), c(100)),
-            2 => forms!($t, *, *=, [c(1), c(2), c(3), c(4), c(5), c(6)], c(3), c(5)),
-            3 => forms!($t, /, /=, [c(12), c(24), c(36), c(48), c(60), c(6)], c(6), c(120)),
-            _ => forms!($t, %, %=, [c(12), c(24), c(36), c(48), c(60), c(7)], c(5), c(100)),
+            0 => {
+                let (e, sl, sr) = pick([1, 2, 3, 4, 5, 6, 10, 20], [-1, 2, -3, 4, -5, 0, -10, 20]);
+                forms!($t, +, +=, e, sl, sr)
+            }
+            1 => {
+                let (e, sl, sr) = pick([7, 9, 12, 8, 11, 10, 3, 100], [-7, 9, -12, 8, 0, -10, -3, -100]);
+                forms!($t, -, -=, e, sl, sr)
+            }
+            2 => {
+                let (e, sl, sr) = pick([1, 2, 3, 4, 5, 6, 3, 5], [-1, 2, -3, 4, -5, 0, -3, 5]);
+                forms!($t, *, *=, e, sl, sr)
+            }
+            3 => {
+                let (e, sl, sr) = pick([12, 24, 36, 48, 60, 6, 6, 120], [-12, 24, -36, 48, -60, 7, -5, -120]);
+                forms!($t, /, /=, e, sl, sr)
+            }
+            _ => {
+                let (e, sl, sr) = pick([12, 24, 36, 48, 60, 7, 5, 100], [-12, 24, -37, 48, -60, -7, 5, -100]);
+                forms!($t, %, %=, e, sl, sr)
+            }
         }
     }};
 }
 
-pub fn scalar_forms(ty: i128, op: i128) -> String {
+pub fn scalar_forms(ty: i128, op: i128, ws: i128) -> String {
+    let ws = if ty < 6 { 0 } else { ws };
     match ty {
-        0 => all_ops!(u8, op, |x: i32| x as u8),
-        1 => all_ops!(u16, op, |x: i32| x as u16),
-        2 => all_ops!(u32, op, |x: i32| x as u32),
-        3 => all_ops!(u64, op, |x: i32| x as u64),
-        4 => all_ops!(u128, op, |x: i32| x as u128),
-        5 => all_ops!(usize, op, |x: i32| x as usize),
-        6 => all_ops!(i8, op, |x: i32| x as i8),
-        7 => all_ops!(i16, op, |x: i32| x as i16),
-        8 => all_ops!(i32, op, |x: i32| x),
-        9 => all_ops!(i64, op, |x: i32| x as i64),
-        10 => all_ops!(i128, op, |x: i32| x as i128),
-        11 => all_ops!(isize, op, |x: i32| x as isize),
-        12 => all_ops!(f32, op, |x: i32| x as f32 + 0.5),
-        13 => all_ops!(f64, op, |x: i32| x as f64 + 0.25),
+        0 => all_ops!(u8, op, ws, |x: i32| x as u8),
+        1 => all_ops!(u16, op, ws, |x: i32| x as u16),
+        2 => all_ops!(u32, op, ws, |x: i32| x as u32),
+        3 => all_ops!(u64, op, ws, |x: i32| x as u64),
+        4 => all_ops!(u128, op, ws, |x: i32| x as u128),
+        5 => all_ops!(usize, op, ws, |x: i32| x as usize),
+        6 => all_ops!(i8, op, ws, |x: i32| x as i8),
+        7 => all_ops!(i16, op, ws, |x: i32| x as i16),
+        8 => all_ops!(i32, op, ws, |x: i32| x),
+        9 => all_ops!(i64, op, ws, |x: i32| x as i64),
+        10 => all_ops!(i128, op, ws, |x: i32| x as i128),
+        11 => all_ops!(isize, op, ws, |x: i32| x as isize),
+        12 => all_ops!(f32, op, ws, |x: i32| x as f32 + 0.5),
+        13 => all_ops!(f64, op, ws, |x: i32| x as f64 + 0.25),
         _ => "INVALID".to_string(),
     }
 }
